@@ -177,11 +177,17 @@ structure Comp where
   compile : Nat → List S × Nat × Nat
   self : Nat → View → Mode → Nat → List S × Nat
 
-/-- `_BlockTreeBuilder.compile_with_out`: nodes that `gate` singles out (in nutils: `ndependents > 1`, or a block
-id before that of the out array) and nodes without in-place protocol are computed separately and then copied /
-added; all others write into `out` themselves -/
-def cwoOf (gate : E → Bool) (e : E) (c : Comp) (out : Nat) (v : View) (mode : Mode) (n : Nat) : List S × Nat :=
-  if gate e || e.isLeaf then
+/-- the two reasons for which `compile_with_out` refuses to compile a node into the caller's array:
+`shared` = `ndependents > 1`, `early` = the node's block precedes the block where the array is initialised
+(`evaluable_block_id < out_block_id`, e.g. a loop invariant term of a `LoopSum` body) -/
+structure Gate where
+  shared : E → Bool
+  early : E → Bool
+
+/-- `_BlockTreeBuilder.compile_with_out`: nodes that the gate singles out and nodes without in-place protocol are
+computed separately and then copied / added; all others write into `out` themselves -/
+def cwoOf (gate : Gate) (e : E) (c : Comp) (out : Nat) (v : View) (mode : Mode) (n : Nat) : List S × Nat :=
+  if gate.shared e || gate.early e || e.isLeaf then
     let (s, x, n') := c.compile n
     match mode with
     | .assign => (s ++ [S.copyTo out v x e.size], n')
@@ -195,9 +201,9 @@ def zeroIf (mode : Mode) (out : Nat) (v : View) (n : Nat) : List S :=
 
 /-- may `Add._compile` start an in-place chain for this operand?  (`ndependents == 1` and the class has a
 `_compile_with_out`) -/
-def inplaceOK (gate : E → Bool) (e : E) : Bool := !(gate e) && !e.isLeaf
+def inplaceOK (gate : Gate) (e : E) : Bool := !(gate.shared e) && !e.isLeaf
 
-def build (gate : E → Bool) : E → Comp
+def build (gate : Gate) : E → Comp
   | .leaf k s =>
     { compile := fun n => ([S.leafv n k s], n, n+1)
       self := fun _ _ _ n => ([], n) }
@@ -243,12 +249,12 @@ def build (gate : E → Bool) : E → Comp
         (S.alloc n e.size :: s, n, n') }
 
 /-- the script for `e`: statements and the variable that holds the result -/
-def compileCore (gate : E → Bool) (e : E) : List S × Nat :=
+def compileCore (gate : Gate) (e : E) : List S × Nat :=
   let (s, x, _) := (build gate e).compile 0
   (s, x)
 
 /-- nutils' gate on trees: every node has exactly one dependent, nothing is forced out of the chain -/
-def noGate : E → Bool := fun _ => false
+def noGate : Gate := { shared := fun _ => false, early := fun _ => false }
 
 end
 
